@@ -2,10 +2,17 @@ import CalVerif.Lemmas.Dates
 /-! # C11 — serial date-times convert to the right calendar date, time and duration
 
 The theorems are about `Model/Dates.lean`, the model of `ExcelDateTime::{as_datetime, as_duration}`
-and of the trait-level conversions, from the millisecond count on.  The float step
-`round((serial [+ 1462] [+ 1]) * 86 400 000)` is NOT part of the model: it is validated by the
-correspondence run (exhaustively on whole days, densely on fractions) against exact integer
-arithmetic; `whole_days_exact` shows that on whole days it involves no rounding at all.
+and of the trait-level conversions.  Two kinds of statement, marked [serial] and [ms]:
+
+* [serial] — about cells that carry the SERIAL and the date-system flag.  The model derives the
+  day number itself (1462-day offset, leap-year shim, choice of the 1900 path for plain numbers);
+  for whole-day serials nothing comes from outside (`whole_days_exact`: the float step is exact
+  there), for fractional serials only the ROUNDED millisecond-of-day of the fraction does.
+* [ms] — about the integer millisecond count after the float step
+  `round((serial [+ 1462] [+ 1]) * 86 400 000)`.  That step is NOT proved: it is validated by the
+  correspondence run (exhaustively on whole days, densely on fractions) against exact integer
+  arithmetic.  "Rounded to the millisecond" and "monotone in the fraction" are therefore
+  statements about the rounded fraction / the millisecond count, not about the f64 serial.
 
 `Spec/Dates.lean` is the calendar these theorems are stated against: the Gregorian leap rule,
 month lengths, `nextDay`, and `addDays k d` = `k` times `nextDay`. -/
@@ -143,28 +150,6 @@ theorem date_time_components (ms : Int) (dt : DateTime) (h : civilOfMs ms = some
       omega
   · cases h
 
-/-- trait level: `as_date` and `as_time` are by construction the two halves of `as_datetime`,
-    a plain number converts like a 1900-system date-time and has no duration, non-numeric cells
-    convert to nothing -/
-theorem cell_conversions (c : Cell) :
-    c.asDate = c.asDatetime.map (·.date) ∧ c.asTime = c.asDatetime.map (·.time) ∧
-    (∀ m d, (Cell.num m).asDatetime = (Cell.dateTime m d).asDatetime) ∧
-    (∀ m, (Cell.num m).asDuration = none) ∧
-    Cell.other.asDatetime = none ∧ Cell.other.asDuration = none :=
-  ⟨rfl, rfl, fun _ _ => rfl, fun _ => rfl, rfl, rfl⟩
-
-/-- the serde helpers (`deserialize_as_*`): for plain numbers and for 1900-system date-time cells
-    (`ms1900 = msDt`) they give what the direct conversion gives for date, time and date-time;
-    **known findings, proved of the model:** a 1904-system cell is converted as if it were a
-    1900-system one (`ms1900` instead of `msDt`), and no cell ever yields a duration -/
-theorem serde_helpers (c : Cell) (ms1900 : MsIn) :
-    (∀ m, (Cell.num m).viaSerde ms1900 = Cell.num m) ∧
-    (∀ m d, ((Cell.dateTime m d).viaSerde m).asDatetime = (Cell.dateTime m d).asDatetime) ∧
-    (∀ m d, ((Cell.dateTime m d).viaSerde ms1900).asDatetime = asDatetimeOfMs ms1900) ∧
-    (c.viaSerde ms1900).asDuration = none := by
-  refine ⟨fun _ => rfl, fun _ _ => rfl, fun _ _ => rfl, ?_⟩
-  cases c <;> rfl
-
 /-- whole-day serials of the supported range convert to midnight of their calendar date -/
 theorem whole_day_datetime (is1904 : Bool) (n : Int) (h0 : 0 ≤ n) (h1 : n ≤ 2958465) :
     datetimeOfSerial is1904 n =
@@ -211,41 +196,168 @@ theorem monotone_whole_days (is1904 : Bool) {n m : Int} (h : n ≤ m) :
 
 theorem shim_collision : dateOfSerial false 59 = dateOfSerial false 60 := by decide
 
-/-- The shim on a millisecond-valued serial when no rounding occurs (what the float step computes
-    for serials that are exact multiples of 1 ms). -/
-def shimMs (ms : Int) : Int := if ms ≥ 60 * 86400000 then ms else ms + 86400000
+/-- [serial] fractional serials of one date system, compared by (whole day, rounded
+    millisecond-of-day): a larger serial never converts to an earlier date-time — except from the
+    day before the fictitious 1900-02-29 into it (day numbers 59 → 60 of the 1900 numbering,
+    i.e. serials −1403 → −1402 of the 1904 system) -/
+theorem monotone_serials (is1904 : Bool) (d1 d2 : Int) (a1 b1 c1 a2 b2 c2 : Nat) (k1 k2 : Kind)
+    (hr1 : (if is1904 then b1 else a1) ≤ 86400000)
+    (hle : d1 < d2 ∨ (d1 = d2 ∧ (if is1904 then b1 else a1) ≤ (if is1904 then b2 else a2)))
+    (hfict : ¬ ((if is1904 then d1 + 1462 else d1) = 59 ∧ (if is1904 then d2 + 1462 else d2) = 60))
+    {x y : DateTime}
+    (hx : (Cell.dateTime (.frac d1 a1 b1 c1) is1904 k1).asDatetime = some x)
+    (hy : (Cell.dateTime (.frac d2 a2 b2 c2) is1904 k2).asDatetime = some y) : x.le y := by
+  simp only [Cell.asDatetime, edtAsDatetime, dateStep] at hx hy
+  refine monotone_ms ?_ (asDatetimeOfMs_some hx) (asDatetimeOfMs_some hy)
+  cases is1904
+  · simp only [Bool.false_eq_true, if_false] at *
+    rw [dayNumber_false, dayNumber_false]
+    split <;> split <;> omega
+  · simp only [if_true] at *
+    rw [dayNumber_true, dayNumber_true]
+    split <;> split <;> omega
 
-/-- **Known finding, proved of the model:** on fractional serials the conversion is NOT monotone
-    across serial 60.  The day [60,61) is the fictitious 1900-02-29; the shim maps it onto the
-    same calendar day as [59,60), so serial 59.5 (1900-02-28 12:00) converts to a later instant
-    than serial 60.0 (1900-02-28 00:00). -/
+/-- [serial] **Known finding C11-a, proved of the model:** the conversion is NOT monotone across
+    serial 60.  The day [60,61) is the fictitious 1900-02-29; the shim maps it onto the same
+    calendar day as [59,60), so serial 59.5 (1900-02-28 12:00) converts to a later instant than
+    serial 60 (1900-02-28 00:00). -/
 theorem fictitious_day_not_monotone :
-    ∃ a b : Int, a < b ∧
-      civilOfMs (shimMs a) = some { date := { y := 1900, m := 2, d := 28 }, time := { h := 12, mi := 0, s := 0, ms := 0 } } ∧
-      civilOfMs (shimMs b) = some { date := { y := 1900, m := 2, d := 28 }, time := { h := 0, mi := 0, s := 0, ms := 0 } } :=
-  ⟨5140800000, 5184000000, by decide, by decide, by decide⟩
+    edtAsDatetime (.frac 59 43200000 43200000 43200000) false =
+      some { date := { y := 1900, m := 2, d := 28 }, time := { h := 12, mi := 0, s := 0, ms := 0 } } ∧
+    edtAsDatetime (.whole 60) false =
+      some { date := { y := 1900, m := 2, d := 28 }, time := { h := 0, mi := 0, s := 0, ms := 0 } } := by
+  decide
 
-/-- … and that is the only place: the shim is monotone below serial 59, on [60, ∞), and from
-    below 60 to 61 and beyond -/
-theorem shimMs_monotone {a b : Int} (h : a ≤ b)
-    (hfict : ¬ (59 * 86400000 < a ∧ a < 60 * 86400000 ∧ 60 * 86400000 ≤ b ∧ b < 61 * 86400000)) :
-    shimMs a ≤ shimMs b := by
-  unfold shimMs; split <;> split <;> omega
+/-! ## cells: the date system is decided inside the model -/
+
+/-- [serial] a whole-day serial cell of the supported range converts to midnight of the date its
+    own system assigns to it -/
+theorem cell_whole_day (is1904 : Bool) (n : Int) (h0 : 0 ≤ n) (h1 : n ≤ 2958465) (k : Kind) :
+    (Cell.dateTime (.whole n) is1904 k).asDatetime =
+      some { date := dateOfSerial is1904 n, time := { h := 0, mi := 0, s := 0, ms := 0 } } :=
+  whole_day_datetime is1904 n h0 h1
+
+/-- [serial] a fractional serial cell: the date is the date of its whole day in its own system and
+    the time of day is the rounded millisecond-of-day `r` of the fraction (the one number taken
+    from the float step); `r = 86 400 000` is midnight of the next calendar day -/
+theorem cell_fractional (is1904 : Bool) (day : Int) (h0 : 0 ≤ day) (h1 : day ≤ 2958465)
+    (r0 r4 rd : Nat) (k : Kind) (hr : (if is1904 then r4 else r0) ≤ 86400000) :
+    ∃ dt, (Cell.dateTime (.frac day r0 r4 rd) is1904 k).asDatetime = some dt ∧ dt.time.Valid ∧
+      ((if is1904 then r4 else r0) < 86400000 →
+        dt.date = dateOfSerial is1904 day ∧ dt.time.toMs = (if is1904 then r4 else r0)) ∧
+      ((if is1904 then r4 else r0) = 86400000 →
+        dt.date = nextDay (dateOfSerial is1904 day) ∧ dt.time.toMs = 0) := by
+  obtain ⟨a, b, _, _⟩ := whole_days_exact is1904 day h0 h1
+  simp only [Cell.asDatetime, edtAsDatetime, dateStep, asDatetimeOfMs, tryMilliseconds_eq, dateOfSerial]
+  generalize dayNumber is1904 day = q at *
+  generalize (if is1904 = true then r4 else r0) = r at *
+  rw [if_neg (by omega)]
+  simp only []
+  have hin : minDay ≤ (q * 86400000 + (r : Int)) / 86400000 ∧ (q * 86400000 + (r : Int)) / 86400000 ≤ maxDay := by
+    unfold minDay maxDay; omega
+  have hsome := civilOfMs_eq (q * 86400000 + (r : Int))
+  rw [if_pos hin] at hsome
+  refine ⟨_, hsome, ?_, ?_, ?_⟩
+  · exact (date_time_components _ _ hsome).2.2.2
+  · intro hlt
+    obtain ⟨hd, _, ht, _⟩ := date_time_components _ _ hsome
+    refine ⟨?_, ?_⟩
+    · rw [hd]; congr 1; omega
+    · rw [ht]; omega
+  · intro heq
+    obtain ⟨hd, _, ht, _⟩ := date_time_components _ _ hsome
+    refine ⟨?_, ?_⟩
+    · rw [hd, ← civilOfDays_succ]; congr 1; omega
+    · rw [ht]; omega
+
+/-- [serial] **as_date / as_time are the components of as_datetime** for every cell, ISO cells
+    included (where the code falls back to the date-only / time-only parsers only when the
+    date-time parser fails) -/
+theorem cell_date_time_components (c : Cell) (dt : DateTime) (h : c.asDatetime = some dt) :
+    c.asDate = some dt.date ∧ c.asTime = some dt.time := by
+  cases c <;> simp_all [Cell.asDate, Cell.asTime, Cell.asDatetime]
+
+/-- [serial] **plain Int/Float cells convert like 1900-system date-times** — and NOT like
+    1904-system ones: on every whole-day serial of the supported range the 1904 reading is a
+    different date.  Plain numbers have no duration. -/
+theorem plain_number_is_1900 :
+    (∀ n k, (Cell.int n).asDatetime = (Cell.dateTime (.whole n) false k).asDatetime) ∧
+    (∀ s k, (Cell.float s).asDatetime = (Cell.dateTime s false k).asDatetime) ∧
+    (∀ n : Int, 0 ≤ n → n ≤ 2958465 → ∀ k,
+        (Cell.int n).asDatetime ≠ (Cell.dateTime (.whole n) true k).asDatetime) ∧
+    (∀ n, (Cell.int n).asDuration = none) ∧ (∀ s, (Cell.float s).asDuration = none) := by
+  refine ⟨fun _ _ => rfl, fun _ _ => rfl, ?_, fun _ => rfl, fun _ => rfl⟩
+  intro n h0 h1 k heq
+  have e1 : (Cell.int n).asDatetime = _ := whole_day_datetime false n h0 h1
+  have e2 := cell_whole_day true n h0 h1 k
+  rw [e1, e2] at heq
+  injection heq with heq
+  injection heq with hdate _
+  have := civilOfDays_injective hdate
+  rw [dayNumber_false, dayNumber_true] at this
+  split at this <;> split at this <;> omega
+
+/-- [serial] "a duration is the serial times 24 h": whatever the date system and the type flag,
+    with no offset and no shim — whole days exactly, fractional serials up to the rounded
+    millisecond-of-day `rd` -/
+theorem duration_is_serial_times_24h (is1904 : Bool) (k : Kind) :
+    (∀ n : Int, -100000000 ≤ n →
+        (Cell.dateTime (.whole n) is1904 k).asDuration = some (n * 86400000)) ∧
+    (∀ (day : Int) (r0 r4 rd : Nat), -100000000 ≤ day →
+        (Cell.dateTime (.frac day r0 r4 rd) is1904 k).asDuration = some (day * 86400000 + rd)) := by
+  refine ⟨?_, ?_⟩
+  · intro n hn
+    simp only [Cell.asDuration, edtAsDuration, durStep, durationOfMs, tryMilliseconds_eq]
+    rw [if_neg (by omega)]
+  · intro day r0 r4 rd hn
+    simp only [Cell.asDuration, edtAsDuration, durStep, durationOfMs, tryMilliseconds_eq]
+    rw [if_neg (by omega)]
+
+/-! ## the serde helpers `deserialize_as_*` (known findings C11-b/c/d as theorems) -/
+
+/-- [serial] **C11-b:** for plain numbers and 1900-system date-time cells the helpers see what the
+    direct conversion sees; a 1904-system cell is converted as if it were a 1900-system one — a
+    different date on every whole-day serial of the supported range, e.g. serial 0:
+    1899-12-31 instead of 1904-01-01 -/
+theorem helper_drops_1904 :
+    (∀ s k, (Cell.dateTime s false k).viaSerde.asDatetime = (Cell.dateTime s false k).asDatetime) ∧
+    (∀ n : Int, 0 ≤ n → n ≤ 2958465 → ∀ k,
+        (Cell.dateTime (.whole n) true k).viaSerde.asDatetime ≠ (Cell.dateTime (.whole n) true k).asDatetime) ∧
+    (Cell.dateTime (.whole 0) true .dateTime).asDatetime =
+      some { date := { y := 1904, m := 1, d := 1 }, time := { h := 0, mi := 0, s := 0, ms := 0 } } ∧
+    (Cell.dateTime (.whole 0) true .dateTime).viaSerde.asDatetime =
+      some { date := { y := 1899, m := 12, d := 31 }, time := { h := 0, mi := 0, s := 0, ms := 0 } } := by
+  refine ⟨fun _ _ => rfl, ?_, by decide, by decide⟩
+  intro n h0 h1 k
+  exact plain_number_is_1900.2.2.1 n h0 h1 k
+
+/-- [serial] **C11-c:** through the helpers no cell ever yields a duration, although date-time
+    cells have one (serial 0.5 of type TimeDelta: 12 h) -/
+theorem helper_never_duration :
+    (∀ c : Cell, c.viaSerde.asDuration = none) ∧
+    (Cell.dateTime (.frac 0 43200000 43200000 43200000) false .timeDelta).asDuration = some 43200000 := by
+  refine ⟨?_, by decide⟩
+  intro c; cases c <;> rfl
+
+/-- [serial] **C11-d:** through the helpers ISO cells convert to nothing, although the cell itself
+    converts whenever chrono parses its text -/
+theorem helper_iso_none :
+    (∀ pdt pd pt, (Cell.dateTimeIso pdt pd pt).viaSerde.asDatetime = none ∧
+        (Cell.dateTimeIso pdt pd pt).viaSerde.asDate = none ∧
+        (Cell.dateTimeIso pdt pd pt).viaSerde.asTime = none) ∧
+    (∀ pt, (Cell.durationIso pt).viaSerde.asTime = none ∧ (Cell.durationIso pt).viaSerde.asDuration = none) ∧
+    (∀ dt pd pt, (Cell.dateTimeIso (some dt) pd pt).asDatetime = some dt) ∧
+    (∀ t, (Cell.durationIso (some t)).asDuration = some (t.toMs : Int)) :=
+  ⟨fun _ _ _ => ⟨rfl, rfl, rfl⟩, fun _ => ⟨rfl, rfl⟩, fun _ _ _ => rfl, fun _ => rfl⟩
 
 /-! ## durations -/
 
-/-- a duration is the millisecond count itself (serial × 24 h after the float step); the only
-    integer refused is `i64::MIN`, which chrono's `TimeDelta` cannot hold -/
+/-- [ms] a duration is the millisecond count itself; the only integer refused is `i64::MIN`,
+    which chrono's `TimeDelta` cannot hold; a non-finite product gives `None` -/
 theorem duration_is_ms (v : Int) :
     durationOfMs (.ms v) = (if v < -9223372036854775807 then none else some v) ∧
-    durationOfMs .nonFinite = none ∧
-    (∀ n : Int, -100000000000 ≤ n → durationOfMs (.ms (n * 86400000)) = some (n * 24 * 3600000)) := by
-  refine ⟨tryMilliseconds_eq v, rfl, ?_⟩
-  intro n hn
-  simp only [durationOfMs, tryMilliseconds_eq]
-  rw [if_neg (by omega)]
-  congr 1
-  omega
+    durationOfMs .nonFinite = none :=
+  ⟨tryMilliseconds_eq v, rfl⟩
 
 /-! ## beyond the representable calendar -/
 
